@@ -957,5 +957,8 @@ fn main() {
             Ok(s) => writeln!(w, "{}", s).unwrap(),
             Err(_) => writeln!(w, "harness-error {}", line).unwrap(),
         }
+        // one observation per line, visible at once: the driver of this harness attributes a
+        // call that never returns to the first case without an observation
+        w.flush().unwrap();
     }
 }
